@@ -14,7 +14,11 @@ def _test(prop, trace, sig):
     global SHRINKING
     SHRINKING = True
     try:
-        v = prop.execute(trace)
+        # every candidate is executed in a forked child: state the library may keep between executions
+        # (module-level caches) cannot leak from one candidate into the next, nor into this process
+        from .runner import _in_child
+
+        v = _in_child(prop.execute, trace)
     except Exception:  # noqa: BLE001 - a malformed candidate is simply rejected
         return None
     finally:
